@@ -114,18 +114,26 @@ const char *malformedName(int m)
                             "version http/1.1", "version HTTP1.1 (no slash)", "two spaces before the status code",
                             "leading space", "status code 2000", "status code +200", "empty version 'HTTP/ 200'",
                             "HTAB instead of SP after the version",
-                            "lenient: status code 20", "lenient: two spaces after the status code"};
+                            "lenient: status code 20", "lenient: two spaces after the status code",
+                            // 29..40: a chunk-size line that declares more than the client's response cap
+                            "chunk 1 declares cap+1", "chunk 1 declares cap+1, some data", "chunk 2 declares cap+1", "chunk 2 declares cap+1, some data",
+                            "chunk 1 declares 1 GiB", "chunk 1 declares 1 GiB, some data", "chunk 2 declares 1 GiB", "chunk 2 declares 1 GiB, some data",
+                            "chunk 1 declares 2^63", "chunk 1 declares 2^63, some data", "chunk 2 declares 2^63", "chunk 2 declares 2^63, some data"};
   return n[m];
 }
-constexpr int kMalformedKinds = 28;
+constexpr int kMalformedKinds = 40;
 constexpr int kFirstLenientKind = 27;
+constexpr int kFirstOversizedChunkKind = 29;
+constexpr std::size_t kDefaultResponseCap = 16 * 1024 * 1024; // max(Config::maxResponseBytes, jsonConfig.maxPayloadSize) by default
+inline bool lenientKind(int m) { return m == 27 || m == 28; }
+inline bool oversizedChunkKind(int m) { return m >= kFirstOversizedChunkKind && m <= 40; }
 inline bool statusLineKind(int m) { return (m >= 1 && m <= 3) || (m >= 14 && m < kFirstLenientKind); }
 
 // Is response kind `m` a framing violation for a request with this method? (HEAD and
 // bodyless statuses are framed without looking at the length fields.)
 bool malformedApplies(int m, const std::string &method, const RespSpec &s)
 {
-  if (m == 0 || m >= kFirstLenientKind) return false;
+  if (m == 0 || lenientKind(m)) return false;
   if (m <= 5 || m == 8 || statusLineKind(m)) return true; // status line / header syntax / conflicting duplicate: always
   bool bodyless = method == "HEAD" || s.framing == NoContent204 || s.framing == NotModified304;
   return !bodyless;
@@ -151,7 +159,7 @@ struct Rendered
   int status = 0;
 };
 
-Rendered render(const RespSpec &s, const std::string &method, const std::string &tok)
+Rendered render(const RespSpec &s, const std::string &method, const std::string &tok, std::size_t cap = kDefaultResponseCap)
 {
   Rendered r;
   const bool head = method == "HEAD";
@@ -233,6 +241,19 @@ Rendered render(const RespSpec &s, const std::string &method, const std::string 
     }
     if (body.empty() && (s.malformed >= 10 && s.malformed <= 12)) payload += "zz\r\n";
     payload += "0\r\n\r\n";
+    if (oversizedChunkKind(s.malformed))
+    {
+      // [one valid chunk] + a size line beyond the cap [+ a few data octets]; nothing else follows
+      int v = s.malformed - kFirstOversizedChunkKind;
+      unsigned long long declared = v / 4 == 0 ? static_cast<unsigned long long>(cap) + 1 : v / 4 == 1 ? 0x40000000ULL : 0x8000000000000000ULL;
+      if (declared <= cap) declared = static_cast<unsigned long long>(cap) + 1;
+      char b[32];
+      std::snprintf(b, sizeof b, (v % 2) ? "%llX" : "%llx", declared);
+      payload.clear();
+      if ((v / 2) % 2) payload += "5\r\nhello\r\n";
+      payload += std::string(b) + "\r\n";
+      if (v % 2) payload += "partial";
+    }
     break;
   }
   case CloseDelimited:
@@ -290,6 +311,7 @@ struct Plan
   std::vector<Action> script;
   int callers = 1;
   int requestTimeoutMs = 250;
+  std::size_t capBytes = 0; // 0: the client's default response cap (16 MiB); else maxResponseBytes = jsonConfig.maxPayloadSize = capBytes
   bool reuse = true;
 };
 
@@ -565,7 +587,7 @@ private:
     bool wrote = true;
     if (a.respond)
     {
-      r = render(a.resp, ex.method, ex.token.empty() ? "unknown" : ex.token);
+      r = render(a.resp, ex.method, ex.token.empty() ? "unknown" : ex.token, plan.capBytes ? plan.capBytes : kDefaultResponseCap);
       j = a.cutSel < 0 ? r.bytes.size() : static_cast<std::size_t>(a.cutSel) % (r.bytes.size() + 1);
       if (j > 0)
       {
@@ -575,7 +597,7 @@ private:
       }
       ex.statusSent = r.status;
       ex.malformedKind = a.resp.malformed;
-      ex.anyStatus = a.resp.malformed >= kFirstLenientKind;
+      ex.anyStatus = lenientKind(a.resp.malformed);
     }
     bool complete = a.respond && wrote && j >= r.surplusFrom; // the whole message (surplus may be cut)
     // going silent after a complete answer is just an idle persistent connection
@@ -794,6 +816,7 @@ std::string describe(const Plan &p)
 {
   pbt::Fmt f;
   f << "callers=" << p.callers << " requestTimeout=" << p.requestTimeoutMs << "ms reuseConnections=" << (p.reuse ? "yes" : "no");
+  if (p.capBytes) f << " responseCap=" << p.capBytes;
   f << "\n requests:";
   for (auto &l : p.reqs)
   {
@@ -869,6 +892,11 @@ void execute(const Plan &plan, pbt::Case &c)
     cfg.connectTimeout = std::chrono::milliseconds(200);
     cfg.requestTimeout = std::chrono::milliseconds(plan.requestTimeoutMs);
     cfg.reuseConnections = plan.reuse;
+    if (plan.capBytes)
+    {
+      cfg.maxResponseBytes = plan.capBytes;
+      cfg.jsonConfig.maxPayloadSize = plan.capBytes;
+    }
     HttpClient client(cfg);
     const std::string base = "http://127.0.0.1:" + std::to_string(srv.portNo()) + "/t/";
     auto callerFn = [&](int who)
@@ -979,7 +1007,8 @@ void execute(const Plan &plan, pbt::Case &c)
       for (auto *ex : it->second)
       {
         if (ex->framingErrorDelivered && statusLineKind(ex->malformedKind)) c.label("fault: malformed status line delivered");
-        if (ex->malformedKind >= kFirstLenientKind && ex->responseComplete)
+        if (ex->framingErrorDelivered && oversizedChunkKind(ex->malformedKind)) c.label("fault: chunk-size beyond the response cap delivered");
+        if (lenientKind(ex->malformedKind) && ex->responseComplete)
           c.label(pbt::Fmt() << malformedName(ex->malformedKind) << " -> " << (o.returned ? "accepted, status " + std::to_string(o.status) : "rejected (" + o.errKind + ")")
                              << ", " << it->second.size() << " attempt(s)");
       }
@@ -1071,6 +1100,14 @@ Action genAction(pbt::Src &src, const pbt::Row &r)
     if (s.malformed == 9 && s.framing != Chunked) s.framing = ByLength;
     static const Then t2[] = {Then::Keep, Then::Keep, Then::Fin, Then::Stall};
     a.then = t2[r[4] % 4];
+    if (oversizedChunkKind(s.malformed))
+    {
+      // the peer closes or goes silent behind the offending size line (RST: no verdict - it may
+      // destroy the line before the client has read it)
+      s.framing = Chunked;
+      static const Then t6[] = {Then::Fin, Then::Fin, Then::Fin, Then::Keep, Then::Stall, Then::Rst};
+      a.then = t6[r[4] % 6];
+    }
     return a;
   }
   // complete answers
@@ -1133,6 +1170,17 @@ PBT_PROPERTY(exchange)
   // Receive time-out: short when the script lets the peer go silent (every silent attempt costs
   // one time-out), long otherwise - a long time-out is what makes "no attempt timed out" a sound
   // premise for the framing-error rule under machine load.
+  if (src.coin(1, 6))
+  {
+    // a small configured response cap: every scripted body stays well inside it
+    plan.capBytes = 4096;
+    for (auto &a : plan.script)
+    {
+      a.resp.bodySize %= 1500;
+      a.resp.interim100 = false;
+    }
+    c.label("small response cap (4096)");
+  }
   plan.requestTimeoutMs = anyStall ? static_cast<int>(src.oneOf<int>({200, 250, 300})) : 2500;
   if (anyStall) c.label("script contains a silent peer");
   if (anyFraming) c.label("script contains a framing violation");
@@ -1224,6 +1272,42 @@ PBT_REGRESSION(malformed_status_line_not_retried)
     bad.resp.bodySize = 12;
     p.script.push_back(bad);
   }
+  execute(p, c);
+}
+
+// a chunk-size line that declares more than the response cap is a framing error the moment it
+// arrives, also when the peer then closes / goes silent: one attempt (seeded change C17-H)
+namespace
+{
+void oversizedChunkPlan(Plan &p)
+{
+  p.requestTimeoutMs = 2500;
+  static const Then thens[] = {Then::Fin, Then::Fin, Then::Keep, Then::Fin};
+  for (int kind = kFirstOversizedChunkKind; kind <= 40; ++kind)
+  {
+    p.reqs.push_back(L(kind % 2 ? "GET" : "PUT", 2, ""));
+    p.reqs.back().token = "o" + std::to_string(kind);
+    if (p.reqs.back().method == "PUT") p.reqs.back().bodySize = 4;
+    Action bad;
+    bad.resp.framing = Chunked;
+    bad.resp.malformed = kind;
+    bad.resp.bodySize = 12;
+    bad.then = thens[kind % 4];
+    p.script.push_back(bad);
+  }
+}
+} // namespace
+PBT_REGRESSION(oversized_chunk_not_retried)
+{
+  Plan p;
+  oversizedChunkPlan(p);
+  execute(p, c);
+}
+PBT_REGRESSION(oversized_chunk_small_cap_not_retried)
+{
+  Plan p;
+  oversizedChunkPlan(p);
+  p.capBytes = 4096;
   execute(p, c);
 }
 
